@@ -484,12 +484,16 @@ impl<'a> Ord for BorrowedTerm<'a> {
                 }
                 (BorrowedTerm::Map(a), BorrowedTerm::Map(b)) => {
                     a.len().cmp(&b.len()).then_with(|| {
-                        for ((k1, v1), (k2, v2)) in a.iter().zip(b.iter()) {
+                        // Erlang compares all keys (in key order) before any value
+                        for (k1, k2) in a.keys().zip(b.keys()) {
                             match k1.cmp(k2) {
-                                Ordering::Equal => match v1.cmp(v2) {
-                                    Ordering::Equal => continue,
-                                    other => return other,
-                                },
+                                Ordering::Equal => continue,
+                                other => return other,
+                            }
+                        }
+                        for (v1, v2) in a.values().zip(b.values()) {
+                            match v1.cmp(v2) {
+                                Ordering::Equal => continue,
                                 other => return other,
                             }
                         }
